@@ -703,6 +703,13 @@ func (g *genModel) bytesExpr(v ssa.Value, depth int) ([]tmplPart, error) {
 				}
 			}
 		}
+		// []byte(strings.Join(lines, "")) of a list of pieces built by appends
+		if c, ok := g.deref(v.X).(*ssa.Call); ok && c.Call.StaticCallee() != nil && c.Call.StaticCallee().String() == "strings.Join" && len(c.Call.Args) == 2 {
+			if sep, ok := constString(g.deref(c.Call.Args[1])); ok && sep == "" {
+				return g.bytesExpr(c.Call.Args[0], depth+1)
+			}
+			return nil, fmt.Errorf("%s: strings.Join with a separator is not modelled", g.p.pos(c.Pos()))
+		}
 		// []byte(a + b + …) of constants and descriptor fields
 		if sps, err := g.strExpr(v.X); err == nil {
 			var out []tmplPart
@@ -753,7 +760,7 @@ func (g *genModel) bytesExpr(v ssa.Value, depth int) ([]tmplPart, error) {
 			if err != nil {
 				return nil, err
 			}
-			parts, err := g.strExpr(v.Call.Args[1])
+			parts, err := g.appendedStrParts(v)
 			if err != nil {
 				return nil, err
 			}
@@ -764,6 +771,16 @@ func (g *genModel) bytesExpr(v ssa.Value, depth int) ([]tmplPart, error) {
 				head = append(head, tmplPart{Const: sp.Const})
 			}
 			return head, nil
+		}
+	case *ssa.MakeSlice:
+		// make([]T, 0, n): nothing written yet
+		if k, ok := v.Len.(*ssa.Const); ok && k.Value != nil && k.Int64() == 0 {
+			return nil, nil
+		}
+		return nil, fmt.Errorf("%s: output accumulator starts with a non-zero length", g.p.pos(v.Pos()))
+	case *ssa.Const:
+		if v.IsNil() {
+			return nil, nil
 		}
 	case *ssa.Phi:
 		// loop accumulator: phi(init, append(phi, expr...))
@@ -788,7 +805,7 @@ func (g *genModel) bytesExpr(v ssa.Value, depth int) ([]tmplPart, error) {
 		if err != nil {
 			return nil, err
 		}
-		parts, err := g.strExpr(step.Call.Args[1])
+		parts, err := g.appendedStrParts(step)
 		if err != nil {
 			return nil, err
 		}
@@ -828,6 +845,60 @@ func (g *genModel) bytesExpr(v ssa.Value, depth int) ([]tmplPart, error) {
 		return append(head, tmplPart{Rep: rep}), nil
 	}
 	return nil, fmt.Errorf("%s: unsupported byte-template construct %T (%s)", g.p.pos(v.Pos()), v, v)
+}
+
+// appendedStrParts: the text one append adds to an accumulator of output — the spread string of
+// append(bytes, s...), or the pieces of append(lines, a, b) for a list of strings that is joined without a
+// separator at the end.
+func (g *genModel) appendedStrParts(app *ssa.Call) ([]strPart, error) {
+	arg := app.Call.Args[1]
+	if isStringType(arg.Type()) {
+		return g.strExpr(arg)
+	}
+	sl, ok := arg.(*ssa.Slice)
+	if !ok {
+		return g.strExpr(arg)
+	}
+	al, ok := sl.X.(*ssa.Alloc)
+	if !ok {
+		return nil, fmt.Errorf("%s: append of a list that is not a literal argument list", g.p.pos(app.Pos()))
+	}
+	at, ok := al.Type().Underlying().(*types.Pointer).Elem().Underlying().(*types.Array)
+	if !ok || !isStringType(at.Elem()) {
+		return nil, fmt.Errorf("%s: append of a list that is not a literal argument list", g.p.pos(app.Pos()))
+	}
+	vals := make([]ssa.Value, at.Len())
+	for _, r := range *al.Referrers() {
+		ia, ok := r.(*ssa.IndexAddr)
+		if !ok {
+			continue
+		}
+		kc, ok := ia.Index.(*ssa.Const)
+		if !ok || kc.Value == nil {
+			return nil, fmt.Errorf("%s: appended pieces are not stored at constant positions", g.p.pos(app.Pos()))
+		}
+		for _, rr := range *ia.Referrers() {
+			if st, ok := rr.(*ssa.Store); ok && st.Addr == ssa.Value(ia) {
+				i := int(kc.Int64())
+				if i < 0 || i >= len(vals) || vals[i] != nil {
+					return nil, fmt.Errorf("%s: appended piece stored twice", g.p.pos(app.Pos()))
+				}
+				vals[i] = st.Val
+			}
+		}
+	}
+	var out []strPart
+	for _, v := range vals {
+		if v == nil {
+			return nil, fmt.Errorf("%s: appended piece not found", g.p.pos(app.Pos()))
+		}
+		ps, err := g.strExpr(v)
+		if err != nil {
+			return nil, err
+		}
+		out = append(out, ps...)
+	}
+	return out, nil
 }
 
 // listExpr resolves a []string accumulated in a range over a decoded JSON list.
